@@ -18,6 +18,7 @@ structure IterRep (a : DB) (d : MemDB.DB) (ix : Bytes → Nat) (ai : Iter) (it :
   forward : ai.forward = it.forward
   node : ai.node = nix ix it.node
   mem : ∀ k, it.node = some k → k ∈ d.level0 ∧ ai.key = some k ∧ ai.value = some (d.value k)
+  gen : ai.node ≠ 0 → ai.gen = a.gen
 
 theorem IterRep.out {ai : Iter} {it : MemDB.Iter} (r : Rep cmp a d ix) (h : IterRep a d ix ai it) :
     ai.out = it.out d := by
@@ -56,7 +57,7 @@ theorem ideal_fill_some {it : MemDB.Iter} {k : Bytes} (h : it.node = some k) (cs
   unfold MemDB.Iter.fill outOf; rw [h]; rfl
 
 theorem arr_fill_zero {ai : Iter} (h : ai.node = 0) (cs cl : Bool) :
-    Iter.fill cmp a ai cs cl = some ({ ai with key := none, value := none }, false) := by
+    Iter.fill cmp a ai cs cl = some ({ ai with key := none, value := none, gen := a.gen }, false) := by
   unfold Iter.fill; simp [h]
 
 theorem arr_fill_node {ai : Iter} {o : Nat} {k v : Bytes} (hne : ai.node ≠ 0)
@@ -64,8 +65,9 @@ theorem arr_fill_node {ai : Iter} {o : Nat} {k v : Bytes} (hne : ai.node ≠ 0)
     (h2 : slice a.kvData o (o + k.length) = some k) (h3 : a.nodeData[ai.node + nVal]? = some v.length)
     (h4 : slice a.kvData (o + k.length) (o + k.length + v.length) = some v) (cs cl : Bool) :
     Iter.fill cmp a ai cs cl =
-      if outOf cmp ai.start ai.limit k cs cl then some ({ ai with node := 0, key := none, value := none }, false)
-      else some ({ ai with key := some k, value := some v }, true) := by
+      if outOf cmp ai.start ai.limit k cs cl then
+        some ({ ai with node := 0, key := none, value := none, gen := a.gen }, false)
+      else some ({ ai with key := some k, value := some v, gen := a.gen }, true) := by
   unfold Iter.fill outOf
   have : (ai.node != 0) = true := by simpa using hne
   simp only [this, if_true, h0, h1, h2, h3, h4, Option.bind_some, Option.bind_eq_bind]
@@ -84,7 +86,7 @@ theorem fill_sim (r : Rep cmp a d ix) (ai : Iter) (it : MemDB.Iter) (hs : ai.sta
     rw [ideal_fill_none hnode, arr_fill_zero h0, hnode]
     refine ⟨_, rfl, ?_⟩
     exact ⟨hs, hl, hf, by show ai.node = _; rw [h0, hnode]; rfl,
-      fun k hk => by rw [hnode] at hk; exact absurd hk (by simp)⟩
+      fun k hk => by rw [hnode] at hk; exact absurd hk (by simp), fun _ => rfl⟩
   | some k =>
     have hk := hm k hnode
     have hnk := r.node k hk
@@ -98,10 +100,10 @@ theorem fill_sim (r : Rep cmp a d ix) (ai : Iter) (it : MemDB.Iter) (hs : ai.sta
     by_cases hout : outOf cmp it.start it.limit k cs cl = true
     · simp only [hout, if_true]
       refine ⟨_, rfl, ?_⟩
-      exact ⟨hs, hl, hf, rfl, fun k' hk' => absurd hk' (by simp)⟩
+      exact ⟨hs, hl, hf, rfl, fun k' hk' => absurd hk' (by simp), fun _ => rfl⟩
     · simp only [hout, Bool.false_eq_true, if_false, hnode, Option.isSome_some]
       refine ⟨_, rfl, ?_⟩
-      refine ⟨hs, hl, hf, by show ai.node = _; rw [hix, hnode]; rfl, ?_⟩
+      refine ⟨hs, hl, hf, by show ai.node = _; rw [hix, hnode]; rfl, ?_, fun _ => rfl⟩
       intro k' hk'
       rw [hnode] at hk'
       have := Option.some.inj hk'
@@ -119,7 +121,8 @@ variable (hc : LawfulCmp cmp) (r : Rep cmp a d ix)
 include hc r
 
 /-- positioning on a node of level 0 (or on none) and filling -/
-theorem move_sim {ai : Iter} {it : MemDB.Iter} (h : IterRep a d ix ai it) (fw : Bool) (nd0 : Node)
+theorem move_sim {ai : Iter} {it : MemDB.Iter} (hs : ai.start = it.start) (hl : ai.limit = it.limit) (fw : Bool)
+    (nd0 : Node)
     (hm : ∀ k, nd0 = some k → k ∈ d.level0) (cs cl : Bool) (arrNode : Option Nat)
     (hnode : arrNode = some (nix ix nd0)) :
     ∃ ai', (arrNode.bind fun node => Iter.fill cmp a { ai with forward := fw, node := node } cs cl) =
@@ -127,7 +130,7 @@ theorem move_sim {ai : Iter} {it : MemDB.Iter} (h : IterRep a d ix ai it) (fw : 
       IterRep a d ix ai' (({ it with forward := fw, node := nd0 } : MemDB.Iter).fill cmp cs cl) := by
   rw [hnode, Option.bind_some]
   exact fill_sim r { ai with forward := fw, node := nix ix nd0 } { it with forward := fw, node := nd0 }
-    h.start h.limit rfl rfl hm cs cl
+    hs hl rfl rfl hm cs cl
 
 theorem level0_head : a.nodeData[nNext]? = some (nix ix d.level0.head?) := by
   have h0 : 0 < d.levels.length := by have := r.mh_pos; rw [r.mh] at this; omega
@@ -160,10 +163,10 @@ theorem arr_last_eq (ai : Iter) : ai.last cmp a =
       fun node => Iter.fill cmp a { ai with forward := false, node := node } true false := by
   unfold Iter.last; cases ai.limit <;> rfl
 
-theorem first_sim {ai : Iter} {it : MemDB.Iter} (h : IterRep a d ix ai it) :
+theorem first_sim {ai : Iter} {it : MemDB.Iter} (hs : ai.start = it.start) (hl : ai.limit = it.limit) :
     ∃ ai', ai.first cmp a = some (ai', (it.first cmp d).node.isSome) ∧ IterRep a d ix ai' (it.first cmp d) := by
   rw [arr_first_eq]
-  refine move_sim hc r h true
+  refine move_sim hc r hs hl true
     (match it.start with
       | some s => (MemDB.findGE cmp d s false).node
       | none => (MemDB.after d.level0 none).head?) ?_ false true
@@ -174,17 +177,17 @@ theorem first_sim {ai : Iter} {it : MemDB.Iter} (h : IterRep a d ix ai it) :
     cases hs : it.start with
     | some s => rw [hs] at hk; exact findGE_node_mem hc r s false hk
     | none => rw [hs] at hk; simp only [MemDB.after] at hk; exact List.mem_of_mem_head? hk
-  · rw [h.start]
+  · rw [hs]
     cases it.start with
     | some s =>
       obtain ⟨pn', g1, _⟩ := findGE_sim r s false
       simp only [g1, Option.map_some]
     | none => simp only [MemDB.after]; exact level0_head hc r
 
-theorem last_sim {ai : Iter} {it : MemDB.Iter} (h : IterRep a d ix ai it) :
+theorem last_sim {ai : Iter} {it : MemDB.Iter} (hs : ai.start = it.start) (hl : ai.limit = it.limit) :
     ∃ ai', ai.last cmp a = some (ai', (it.last cmp d).node.isSome) ∧ IterRep a d ix ai' (it.last cmp d) := by
   rw [arr_last_eq]
-  refine move_sim hc r h false
+  refine move_sim hc r hs hl false
     (match it.limit with
       | some l => MemDB.findLT cmp d l
       | none => MemDB.findLast d) ?_ true false
@@ -195,7 +198,7 @@ theorem last_sim {ai : Iter} {it : MemDB.Iter} (h : IterRep a d ix ai it) :
     cases hs : it.limit with
     | some l => rw [hs] at hk; simp only [MemDB.findLT_eq hc r.inv] at hk; exact (MemDB.pred_mem hk).1
     | none => rw [hs] at hk; simp only [MemDB.findLast_eq hc r.inv] at hk; exact List.mem_of_getLast? hk
-  · rw [h.limit]
+  · rw [hl]
     cases it.limit with
     | some l => exact findLT_sim r l
     | none => exact findLast_sim r
@@ -212,14 +215,15 @@ theorem ideal_seek_eq (it : MemDB.Iter) (key : Bytes) : it.seek cmp d key =
       MemDB.Iter).fill cmp false true := by
   unfold MemDB.Iter.seek seekKey; cases it.start <;> rfl
 
-theorem seek_sim {ai : Iter} {it : MemDB.Iter} (h : IterRep a d ix ai it) (key : Bytes) :
+theorem seek_sim {ai : Iter} {it : MemDB.Iter} (hs : ai.start = it.start) (hl : ai.limit = it.limit)
+    (key : Bytes) :
     ∃ ai', ai.seek cmp a key = some (ai', (it.seek cmp d key).node.isSome) ∧
       IterRep a d ix ai' (it.seek cmp d key) := by
   obtain ⟨pn', g1, _⟩ := findGE_sim r (seekKey cmp it.start key) false
-  obtain ⟨ai', e, h'⟩ := move_sim hc r h true (MemDB.findGE cmp d (seekKey cmp it.start key) false).node
+  obtain ⟨ai', e, h'⟩ := move_sim hc r hs hl true (MemDB.findGE cmp d (seekKey cmp it.start key) false).node
     (fun k hk => findGE_node_mem hc r _ false hk) false true _ rfl
   rw [Option.bind_some] at e
-  have hsk : seekKey cmp ai.start key = seekKey cmp it.start key := by rw [h.start]
+  have hsk : seekKey cmp ai.start key = seekKey cmp it.start key := by rw [hs]
   rw [arr_seek_eq, ideal_seek_eq, hsk, g1, Option.bind_some]
   exact ⟨ai', e, h'⟩
 
@@ -235,17 +239,20 @@ theorem next_sim {ai : Iter} {it : MemDB.Iter} (h : IterRep a d ix ai it) :
       exact ⟨ai, by simp [hn], h⟩
     · have hf' : it.forward = false := by simpa using hf
       simp only [hf', Bool.not_false, if_true]
-      exact first_sim hc r h
+      exact first_sim hc r h.start h.limit
   | some k =>
     have hk := (h.mem k hn).1
     have hix : ai.node = ix k := by rw [h.node, hn]; rfl
     have hne : ¬ ix k = 0 := by
       rw [← hix]; intro e; rw [(h.node_zero r).1 e] at hn; exact absurd hn (by simp)
-    obtain ⟨ai', e, h'⟩ := move_sim hc r h true (MemDB.after d.level0 (some k)).head?
+    obtain ⟨ai', e, h'⟩ := move_sim hc r h.start h.limit true (MemDB.after d.level0 (some k)).head?
       (fun k' hk' => after_subset _ _ _ (List.mem_of_mem_head? hk')) false true _ rfl
     refine ⟨ai', ?_, h'⟩
     rw [Option.bind_some] at e
-    simp only [hix, hne, if_false, next_ptr hc r hk, Option.bind_some, Option.bind_eq_bind]
+    have hg : (ai.gen != a.gen) = false := by
+      have := h.gen (by rw [hix]; exact hne)
+      simp [this]
+    simp only [hix, hne, if_false, hg, Bool.false_eq_true, next_ptr hc r hk, Option.bind_some, Option.bind_eq_bind]
     exact e
 
 theorem prev_sim {ai : Iter} {it : MemDB.Iter} (h : IterRep a d ix ai it) :
@@ -257,7 +264,7 @@ theorem prev_sim {ai : Iter} {it : MemDB.Iter} (h : IterRep a d ix ai it) :
     simp only [h0, if_true, h.forward]
     by_cases hf : it.forward = true
     · simp only [hf, if_true]
-      exact last_sim hc r h
+      exact last_sim hc r h.start h.limit
     · have hf' : it.forward = false := by simpa using hf
       simp only [hf', Bool.false_eq_true, if_false]
       exact ⟨ai, by simp [hn], h⟩
@@ -266,11 +273,15 @@ theorem prev_sim {ai : Iter} {it : MemDB.Iter} (h : IterRep a d ix ai it) :
     have hix : ai.node = ix k := by rw [h.node, hn]; rfl
     have hne : ¬ ix k = 0 := by
       rw [← hix]; intro e; rw [(h.node_zero r).1 e] at hn; exact absurd hn (by simp)
-    obtain ⟨ai', e, h'⟩ := move_sim hc r h false (MemDB.findLT cmp d k)
+    obtain ⟨ai', e, h'⟩ := move_sim hc r h.start h.limit false (MemDB.findLT cmp d k)
       (fun k' hk' => by rw [MemDB.findLT_eq hc r.inv] at hk'; exact (MemDB.pred_mem hk').1) true false _ rfl
     refine ⟨ai', ?_, h'⟩
     rw [Option.bind_some] at e
-    simp only [hix, hne, if_false, hkey, Option.getD_some, findLT_sim r k, Option.bind_some, Option.bind_eq_bind]
+    have hg : (ai.gen != a.gen) = false := by
+      have := h.gen (by rw [hix]; exact hne)
+      simp [this]
+    simp only [hix, hne, if_false, hg, Bool.false_eq_true, hkey, Option.getD_some, findLT_sim r k, Option.bind_some,
+      Option.bind_eq_bind]
     exact e
 
 /-- every move of the array iterator is the move of the ideal iterator; the Boolean returned is its validity -/
@@ -278,9 +289,9 @@ theorem iter_step_sim {ai : Iter} {it : MemDB.Iter} (h : IterRep a d ix ai it) (
     ∃ ai', Iter.step cmp a c ai = some (ai', (MemDB.Iter.step cmp d c it).node.isSome) ∧
       IterRep a d ix ai' (MemDB.Iter.step cmp d c it) := by
   cases c with
-  | first => exact first_sim hc r h
-  | last => exact last_sim hc r h
-  | seek k => exact seek_sim hc r h k
+  | first => exact first_sim hc r h.start h.limit
+  | last => exact last_sim hc r h.start h.limit
+  | seek k => exact seek_sim hc r h.start h.limit k
   | next => exact next_sim hc r h
   | prev => exact prev_sim hc r h
 
@@ -300,7 +311,7 @@ end
 /-- a fresh iterator -/
 theorem iterRep_fresh (a : DB) (d : MemDB.DB) (ix : Bytes → Nat) (start limit : Option Bytes) :
     IterRep a d ix { start := start, limit := limit } { start := start, limit := limit } :=
-  ⟨rfl, rfl, rfl, rfl, fun k hk => absurd hk (by simp)⟩
+  ⟨rfl, rfl, rfl, rfl, fun k hk => absurd hk (by simp), fun h => absurd rfl h⟩
 
 /-! ## operation sequences -/
 
@@ -311,15 +322,15 @@ theorem step_sim (hc : LawfulCmp cmp) (r : Rep cmp a d ix) (op : Op) (hv : op.va
   | put k v h =>
     obtain ⟨h1, h2⟩ := hv
     by_cases hk : k ∈ d.level0
-    · obtain ⟨a', e, r'⟩ := put_old_sim hc r hk v h
+    · obtain ⟨a', e, r', _⟩ := put_old_sim hc r hk v h
       exact ⟨a', ix, by simp [step, e, MemDB.step], r'⟩
-    · obtain ⟨a', ix', e, r'⟩ := put_new_sim hc r hk v h1 h2
-      exact ⟨a', ix', by simp [step, e, MemDB.step], r'⟩
+    · obtain ⟨a', e, r', _⟩ := put_new_sim hc r hk v h1 h2
+      exact ⟨a', _, by simp [step, e, MemDB.step], r'⟩
   | delete k =>
     obtain ⟨a', e, r'⟩ := delete_sim hc r k
     exact ⟨a', ix, by simp [step, e, MemDB.step], r'⟩
   | reset =>
-    obtain ⟨a', e, r'⟩ := reset_sim r
+    obtain ⟨a', e, r', _⟩ := reset_sim r
     exact ⟨a', ix, by simp [step, e, MemDB.step], r'⟩
   | get k =>
     refine ⟨a, ix, ?_, r⟩
